@@ -32,10 +32,13 @@ RULE = ("Assignment sets are CONSTRUCTED (not filtered): per lag one trajectory 
         "Hypothesis draws lag 1..5, sliding on/off, trim on/off, max_n_states in {None, observed, observed+1..3 "
         "(trim only)}, builder in {normalize, transpose, mle} by name and by callable plus a dense-returning "
         "callable (normalize with prior_counts=1), presentation (padded ndarray / RaggedArray), constructor vs "
-        "from_assignments. Spectral clauses draw ergodic matrices from integer weights (all-positive, reversible, "
+        "from_assignments; core size 1..6 (<= 4 for mle; up to 12 and lag up to 8 in the thorough-only *_large "
+        "clauses). Thorough also enumerates all 1344 configurations (7 builders x trim x sliding x max_n_states x "
+        "lag 1..3 x presentation x constructor) on two fixed assignment sets. Spectral clauses draw ergodic matrices from integer weights (all-positive, reversible, "
         "rotor = strong cyclic drift -> complex pairs, bipartite = exactly/nearly periodic -> negative eigenvalues, "
-        "sparse pattern = ring + random edges), n 1..9 (seeded up to 40 in thorough; >= 1000-state sparse chains for "
-        "the ARPACK branch), container ndarray/csr/coo/csc matrix and csr/coo array, n_eigs in {None,2,3,n,n+2}, "
+        "sparse pattern = ring + random edges), n 1..9 (10..40 from a drawn seed; 1000..1200-state sparse chains for "
+        "the ARPACK branch: reversible metastable blocks, the same nearly bipartite (eigenvalues near -1), and "
+        "with a directed drift), container ndarray/csr/coo/csc matrix and csr/coo array, n_eigs in {None,2,3,n,n+2}, "
         "left/right. Non-trivial: (pipeline, roundtrip) trim=True actually removed >= 1 state and at least one more "
         "field differs from its default (sliding_window=False or max_n_states given); (timescales) >= 1 finite "
         "positive timescale and (a state trimmed or sliding off or >= 2 lag times); (spectrum) n >= 3 with a complex "
@@ -70,7 +73,7 @@ METHODS = {
     "fn:normalize": builders.normalize, "fn:transpose": builders.transpose, "fn:mle": builders.mle,
     "fn:prior": prior_builder,
 }
-ALL_METHODS = sorted(METHODS)
+ALL_METHODS = ["name:normalize", "fn:normalize", "name:transpose", "fn:transpose", "fn:prior", "name:mle", "fn:mle"]
 FN_METHODS = [m for m in ALL_METHODS if m.startswith("fn:")]
 
 
@@ -554,9 +557,9 @@ def spectral_case(draw, seeded=False):
 def big_case(draw):
     return {"family": "big", "big": {"n": draw(st.sampled_from([1000, 1001, 1100, 1200])),
                                      "seed": draw(st.integers(0, 2 ** 31 - 1)),
-                                     "kind": draw(st.sampled_from(["rev_clusters", "nonrev_drift"])),
+                                     "kind": draw(st.sampled_from(["rev_bipartite", "rev_clusters", "nonrev_drift"])),
                                      "n_clusters": draw(st.integers(2, 5))},
-            "fmt": draw(st.sampled_from(["csr_matrix", "coo_matrix", "csc_matrix", "csr_array"])),
+            "fmt": draw(st.sampled_from(["coo_matrix", "csr_matrix", "csc_matrix", "csr_array"])),
             "n_eigs": draw(st.integers(2, 6)), "left": True}
 
 
@@ -616,6 +619,9 @@ def run_spectrum(case):
     dist = np.abs(ref[:top, None] - ref[None, :])
     dist[np.arange(top), np.arange(top)] = 10.0
     clustered = bool(n > 1 and dist.min() <= 1e-4)
+    kind = case.get("big", case.get("seeded", {})).get("kind", case["family"])
+    if kind.startswith("rev"):
+        clustered = False       # similar to a symmetric matrix: every eigenvalue is well conditioned
     if not clustered:
         require(np.max(np.abs(vals - ref.real[:m])) <= 1e-7 * TS,
                 "eigenvalues are not the largest real parts of the spectrum", got=vals.tolist(),
@@ -717,6 +723,10 @@ CLAUSES = [
            doc="MSM(**cfg).fit(a) == builder(trim?(assigns_to_counts(a, lag, sliding, max_n_states)))"),
     Clause("roundtrip", assign_case(), run_roundtrip, quick=400, thorough=4000,
            doc="MSM.load(m.save(dir)) equals m (config, mapping, counts, T, populations, ==)"),
+    Clause("pipeline_large", assign_case(max_core=12, max_lag=8), run_pipeline, quick=0, thorough=2400,
+           doc="same as pipeline, up to 12 core + 3 non-core states, lag up to 8 (thorough only)"),
+    Clause("roundtrip_large", assign_case(max_core=12, max_lag=8), run_roundtrip, quick=0, thorough=1200,
+           doc="same as roundtrip, larger models (thorough only)"),
     Clause("timescales", assign_case(multi_lag=True, methods=FN_METHODS, min_core=2, with_mns=False),
            run_timescales, quick=400, thorough=4000,
            doc="implied_timescales == -lag / ln(eigenvalue_k)"),
@@ -724,7 +734,7 @@ CLAUSES = [
            doc="eigenspectrum: real, descending, leading 1, stationary left vector, eigen-equation"),
     Clause("spectrum_medium", spectral_case(seeded=True), run_spectrum, quick=80, thorough=1600,
            doc="same, 10..40 states from a seed"),
-    Clause("spectrum_arpack", big_case(), run_spectrum, quick=12, thorough=96,
+    Clause("spectrum_arpack", big_case(), run_spectrum, quick=20, thorough=160,
            doc="same, >= 1000-state sparse chains (ARPACK branch)"),
     Clause("propagate", propagate_case(), run_propagate, quick=320, thorough=4000,
            doc="synthetic_ensemble(T, p0, n) rows == p0 T^k"),
@@ -737,11 +747,23 @@ CLAUSES = [
 
 
 def _m_sliding_dropped(case, exc):
-    """MSM.__init__ stores sliding_window=True whatever is passed (proposed_fixes/C16-1.diff)."""
+    """MSM.__init__ stores sliding_window=True whatever is passed (proposed_fixes/C16-1.diff). Matches only if
+    the case asked for sliding_window=False, the estimator reports True, and its counts are exactly those of the
+    function pipeline run with sliding_window=True (so any other disagreement is still reported)."""
+    if case.get("sliding") is not False or "lag" not in case or type(exc).__name__ != "Violation":
+        return False
     msg = str(exc)
-    return (case.get("sliding") is False and type(exc).__name__ == "Violation"
-            and ("differ from the function pipeline" in msg or "constructor arguments" in msg
-                 or "config changed" in msg))
+    if not ("differ from the function pipeline" in msg or "constructor arguments" in msg or "config changed" in msg):
+        return False
+    a = make_assigns(case["trajs"], case["how"])
+    m = fit_msm(case, a, case["lag"])
+    if m.sliding_window is not True:
+        return False
+    C = assigns_to_counts(a, case["lag"], max_n_states=case["max_n_states"], sliding_window=True)
+    if case["trim"]:
+        _, C = trim_disconnected(C)
+    Cp, _, _ = method_fn(case["method"])(C)
+    return dense(Cp).shape == dense(m.tcounts_).shape and bool(np.array_equal(dense(Cp), dense(m.tcounts_)))
 
 
 def _m_mle_sparse(case, exc):
